@@ -23,6 +23,14 @@ Block walk (_walk_memory(addr, n, factor)), for all addr, n: the loop invariant 
   group to the right on the same scan line, all on screen when the first is; on exit ofs = n.
   Hence the chunks partition [0, n) in order and every byte of a block is mapped to exactly the
   pixels the single-byte access maps it to: block access = byte access.
+From chunks to byte values (CGA and EGA mappers, real ByteMatrix row operations): bytematrix.unpack_bytes /
+  pack_bytes (leftmost pixel in the highest bits, inverse of each other); get_memory turns a chunk into the
+  packed encoding of exactly its pixels (EGA: bit `plane` of each pixel; 0 on a plane the mode does not use);
+  set_memory replaces exactly those pixels, on EGA exactly the bits of the writable planes selected by the
+  plane mask (all planes of the mode are writable: geometry task) - so PEEK after POKE returns the byte.
+Text modes (TextMemoryMapper.get_memory / set_memory, loop contracts over all addresses and lengths):
+  byte i of a block is the character (even address) or attribute (odd) of the cell at addr+i, 0 / ignored
+  where no screen content is backed (below the segment, beyond the pages, rows 25.. of a page).
 """
 
 import importlib
@@ -251,6 +259,190 @@ def t_block_bytes_bounded(E, mode):
     E.prove(same, 'writing a block has the same effect as writing it byte by byte')
 
 
+
+
+# ---------------------------------------------------------------------------
+# pixel packing (base/bytematrix.py): what "the encoding of the pixels a byte covers" is
+
+def t_pack(E, k, nbytes):
+    """unpack_bytes / pack_bytes with k pixels per byte (bpp = 8/k bits each, leftmost pixel in the
+    highest bits): unpacking byte b gives its k pixel values in order; packing is its inverse on
+    whole bytes and uses only the low bpp bits of each pixel."""
+    from pcbasic.basic.base import bytematrix
+    bpp = 8 // k
+    data = [E.int('b[%d]' % i, 0, 255) for i in range(nbytes)]
+    buf = SBuf(data, 'bytes') if E.mode == 'symbolic' else bytes(data)
+    r = E.call(bytematrix.unpack_bytes, buf, k)
+    E.prove(not r.raised, 'unpack never raises')
+    if r.raised:
+        return
+    px = list(to_cells(r.value))
+    E.prove(len(px) == nbytes * k, 'k pixels per byte')
+    for i in range(nbytes):
+        for j in range(k):
+            want = (data[i] // (1 << (8 - bpp * (j + 1)))) % (1 << bpp)
+            E.prove(px[i * k + j] == want, 'pixel j of byte i is bits 8-bpp*(j+1) .. of the byte (leftmost pixel highest)')
+    r2 = E.call(bytematrix.pack_bytes, r.value, k)
+    E.prove(not r2.raised and len(to_cells(r2.value)) == nbytes and bool(cells_equal(list(to_cells(r2.value)), data)),
+            'packing the unpacked pixels gives the bytes back')
+    # packing arbitrary pixel values uses their low bpp bits only
+    pix = [E.int('p[%d]' % i, 0, 255) for i in range(nbytes * k)]
+    r3 = E.call(bytematrix.pack_bytes, SBuf(pix, 'bytearray') if E.mode == 'symbolic' else bytearray(pix), k)
+    E.prove(not r3.raised, 'pack never raises')
+    if not r3.raised:
+        got = list(to_cells(r3.value))
+        E.prove(len(got) == nbytes, 'one byte per k pixels')
+        for i in range(min(len(got), nbytes)):
+            want = sum((pix[i * k + j] % (1 << bpp)) * (1 << (8 - bpp * (j + 1))) for j in range(k))
+            E.prove(got[i] == want, 'byte i packs pixels i*k .. i*k+k-1, low bpp bits each, leftmost highest')
+
+
+# ---------------------------------------------------------------------------
+# one chunk of a block access: from the walk's chunk to pixels (real ByteMatrix row operations)
+
+class _PixBuf(object):
+    """pixels of one page: logs row-slice loads and stores; loads return a real one-row ByteMatrix
+    with the given (symbolic) pixel cells."""
+    _pyvc_trusted = True
+    def __init__(self, E, page, log, cells):
+        self.E, self.page, self.log, self.cells = E, page, log, cells
+    def __getitem__(self, index):
+        from pcbasic.basic.base import bytematrix
+        y, xs = index
+        self.log.append(('load', self.page, y, xs.start, xs.stop))
+        row = SBuf(list(self.cells), 'bytearray') if self.E.mode == 'symbolic' else bytearray(self.cells)
+        return bytematrix.ByteMatrix._create_from_rows([row])
+    def __setitem__(self, index, value):
+        y, xs = index
+        self.log.append(('store', self.page, y, xs.start, xs.stop, list(to_cells(value._rows[0])) if value._height else []))
+
+class _PixPage(object):
+    _pyvc_trusted = True
+    def __init__(self, pixels):
+        self.pixels = pixels
+
+class _PixPages(object):
+    _pyvc_trusted = True
+    def __init__(self, E, log, cells):
+        self.E, self.log, self.cells = E, log, cells
+    def __getitem__(self, page):
+        return _PixPage(_PixBuf(self.E, page, self.log, self.cells))
+
+
+def _chunk_setup(E, mode, nunits):
+    m, g = _mapper(E, mode, 65536)
+    page = E.int('page', 0, 7)
+    x = E.int('x', 0, 1023)
+    y = E.int('y', 0, 1023)
+    ofs = 1
+    unit_px = 8 if g['tandy'] else g['ppb']
+    bpp = modes_mod._MODE_INFO[mode]['bitsperpixel']
+    cells = [E.int('px[%d]' % i, 0, (1 << bpp) - 1) for i in range(nunits * unit_px)]
+    log = []
+    disp = _Display(_PixPages(E, log, cells))
+    chunk = (page, x, y, ofs, nunits)
+    if E.mode == 'symbolic':
+        E.interp.contracts[fb.GraphicsMemoryMapper._walk_memory] = lambda I, args, kw: iter([chunk])
+    else:
+        m._walk_memory = lambda *a: iter([chunk])
+    return m, g, disp, log, cells, chunk, unit_px
+
+
+def t_chunk_read(E, mode, nunits, plane):
+    """get_memory, one chunk (page, x, y, ofs, n) of the walk: the n bytes at ofs are the packed encoding of
+    the pixels x .. x+n*ppb-1 of scan line y of that page (on the selected colour plane), the rest of the
+    block stays 0."""
+    m, g, disp, log, cells, (page, x, y, ofs, n), unit_px = _chunk_setup(E, mode, nunits)
+    ega = isinstance(m, fb.EGAMemoryMapper)
+    if ega:
+        E.call(m.set_plane, plane)
+    addr = E.int('addr', g['base'], g['base'] + 0xffff)
+    total = ofs + n + 1
+    if g['tandy']:
+        # Tandy SCREEN 6: even and odd bytes are walked separately (planes 0/1); the chunk is given to both;
+        # only the parity of the address matters here (the walk is taken by contract), so it is the case parameter
+        addr = g['base'] + plane
+        r = E.call(m.get_memory, disp, addr, 2 * total)
+    else:
+        r = E.call(m.get_memory, disp, addr, total)
+    E.prove(not r.raised, 'never raises')
+    if r.raised:
+        return
+    out = list(to_cells(r.value))
+    loads = [l for l in log if l[0] == 'load']
+    used = [p for p in modes_mod._MODE_INFO[mode].get('planes_used', range(4))] if ega else None
+    unused_plane = ega and (plane % (max(used) + 1)) not in used
+    E.prove(all(bool(And(l[1] == page, l[2] == y, l[3] == x, l[4] == x + n * unit_px)) for l in loads) and (len(loads) >= 1 or unused_plane),
+            'the pixels read are x .. x+n*ppb-1 of scan line y of the chunk\'s page')
+    def enc(i, pl):
+        # byte i of the chunk on bit plane pl (None = all bits of each pixel, packed)
+        if pl is None:
+            k = g['ppb']; bpp = 8 // k
+            return sum((cells[i * k + j] % (1 << bpp)) * (1 << (8 - bpp * (j + 1))) for j in range(k))
+        return sum(((cells[i * 8 + j] // (1 << pl)) % 2) * (1 << (7 - j)) for j in range(8))
+    if g['tandy']:
+        E.prove(len(out) == 2 * total, 'block length')
+        for i in range(n):
+            for parity in (0, 1):
+                pl = If(addr % 2 == 0, parity, 1 - parity) if not isinstance(addr, int) else parity ^ (addr % 2)
+                want = If(pl == 0, enc(i, 0), enc(i, 1)) if not isinstance(pl, int) else enc(i, pl)
+                E.prove(out[2 * (ofs + i) + parity] == want, 'byte i of the chunk packs bit `plane` of its 8 pixels (even addresses plane 0, odd plane 1)')
+        return
+    E.prove(len(out) == total, 'block length')
+    for i in range(n):
+        if ega:
+            eff = plane % (max(used) + 1)
+            want = enc(i, eff) if eff in used else 0
+        else:
+            want = enc(i, None)
+        E.prove(out[ofs + i] == want, 'byte i of the chunk is the encoding of the pixels it covers')
+    E.prove(And(out[0] == 0, out[ofs + n] == 0), 'bytes outside the chunk stay 0')
+
+
+def t_chunk_write(E, mode, nunits, plane_mask):
+    """set_memory, one chunk (page, x, y, ofs, n) of the walk: the n bytes at ofs of the block replace the
+    pixels x .. x+n*ppb-1 of scan line y of that page by their decoding - all bits of each pixel (CGA
+    packing), or exactly the bits of the writable colour planes selected by the plane mask (EGA) - so that
+    get_memory returns the bytes written; nothing else is stored."""
+    m, g, disp, log, cells, (page, x, y, ofs, n), unit_px = _chunk_setup(E, mode, nunits)
+    ega = isinstance(m, fb.EGAMemoryMapper)
+    if ega:
+        E.call(m.set_plane_mask, plane_mask)
+    addr = E.int('addr', g['base'], g['base'] + 0xffff)
+    total = ofs + n + 1
+    data = [E.int('d[%d]' % i, 0, 255) for i in range(total)]
+    block = SBuf(data, 'bytearray') if E.mode == 'symbolic' else bytearray(data)
+    r = E.call(m.set_memory, disp, addr, block)
+    E.prove(not r.raised, 'never raises')
+    if r.raised:
+        return
+    stores = [l for l in log if l[0] == 'store']
+    if ega:
+        used = list(modes_mod._MODE_INFO[mode].get('planes_used', range(4)))
+        mask = plane_mask & sum(1 << p for p in used)
+        if mask == 0:
+            E.prove(len(stores) == 0, 'no writable plane selected: nothing is stored')
+            return
+    E.prove(len(stores) == 1, 'one store')
+    if len(stores) != 1:
+        return
+    _, sp, sy, sx0, sx1, got = stores[0]
+    E.prove(And(sp == page, sy == y, sx0 == x, sx1 == x + n * unit_px), 'the pixels written are x .. x+n*ppb-1 of scan line y of the chunk\'s page')
+    E.prove(len(got) == n * unit_px, 'one pixel value per pixel')
+    if len(got) != n * unit_px:
+        return
+    for i in range(n):
+        for j in range(unit_px):
+            b = data[ofs + i]
+            if ega:
+                bit = (b // (1 << (7 - j))) % 2
+                old = cells[i * 8 + j]
+                # the selected writable planes take the bit, the other planes keep the old pixel bits
+                want = sum((bit if (mask >> pl) & 1 else (old // (1 << pl)) % 2) * (1 << pl) for pl in range(8))
+            else:
+                bpp = 8 // unit_px
+                want = (b // (1 << (8 - bpp * (j + 1)))) % (1 << bpp)
+            E.prove(got[i * unit_px + j] == want, 'pixel j of byte i takes the bits of the byte (on the selected writable planes)')
 
 # ---------------------------------------------------------------------------
 # Text modes: TextMemoryMapper.get_memory / set_memory, all addresses and all block lengths
@@ -540,6 +732,16 @@ TASKS = [
                 for m in MODES for v in (16384, 65536)]),
     Task('get_memory/set_memory block = bytes (bounded)', t_block_bytes_bounded, cases=[{'mode': m} for m in MODES],
          bounded=True, samples=(12, 120), scope='12 (quick) / 120 (thorough) sampled blocks of 1..700 bytes per mode at sampled bank offsets, real ByteMatrix'),
+    Task('bytematrix.unpack_bytes / pack_bytes', t_pack, cases=[{'k': k, 'nbytes': n} for k in (1, 2, 4, 8) for n in (1, 2, 3)]),
+    Task('get_memory: one chunk to bytes', t_chunk_read,
+         cases=[{'mode': m, 'nunits': n, 'plane': p} for m in MODES for n in (1, 2)
+                if modes_mod._MODE_INFO[m]['layout']._memorymapper is not fb.Tandy6MemoryMapper    # Tandy SCREEN 6: bounded task only
+                for p in ((0, 1, 2, 3, 5) if modes_mod._MODE_INFO[m]['layout']._memorymapper is fb.EGAMemoryMapper else (0,))]),
+    Task('set_memory: one chunk to pixels', t_chunk_write,
+         cases=[{'mode': m, 'nunits': n, 'plane_mask': p} for m in MODES
+                if modes_mod._MODE_INFO[m]['layout']._memorymapper is not fb.Tandy6MemoryMapper    # Tandy SCREEN 6: bounded task only
+                for n in ((1,) if modes_mod._MODE_INFO[m]['layout']._memorymapper is fb.EGAMemoryMapper else (1, 2))
+                for p in ((0, 1, 2, 8, 5, 15, 255) if modes_mod._MODE_INFO[m]['layout']._memorymapper is fb.EGAMemoryMapper else (0,))]),
     Task('text mapper geometry', t_text_geometry, cases=[{'mode': m, 'vm': v} for m in TEXT_MODES for v in (16384, 32768, 262144)]),
     Task('TextMemoryMapper.get_memory', t_text_get, covers=('iteration', 'backed', 'not backed', 'exit'),
          cases=[{'mode': m, 'vm': v} for m in TEXT_MODES for v in (16384, 262144)]),
@@ -554,10 +756,13 @@ ASSUMPTIONS = [
     'block = byte access follows from the chunk contract by the partition argument stated in the header '
     '(consecutive chunks, each unit decoded exactly as the single-byte access decodes it)',
     'Memory block split: block length is a case parameter (0, 1, 2, 5), the address is symbolic over the whole 1 MiB',
+    'text modes: the text page is a logging stand-in with Python list indexing (negative indices included); content is unconstrained',
+    'chunk-to-bytes / chunk-to-pixels: _walk_memory is taken by its contract (one arbitrary chunk), pixel values and block bytes symbolic, '
+    'real ByteMatrix frompacked / packed / render / & | >> on the row',
 ]
 NOT_COVERED = [
-    'pixel packing/unpacking through ByteMatrix in get_memory/set_memory (slicing, packed(), frompacked(), plane shifts) and '
-    'EGA plane masks - the step from "right pixels" to "right byte value"',
-    'TextMemoryMapper (text modes: character/attribute bytes through the text page)',
+    'ByteMatrix row slicing itself (pixels[y, x0:x1] load/store is a logging stand-in that returns / receives a real one-row ByteMatrix); '
+    'the chunk tasks use chunks of 1 or 2 bytes (the per-byte encoding does not depend on the chunk length: pack/unpack contracts for 1..3 bytes)',
+    'Tandy SCREEN 6 (two interleaved plane walks): the step from chunks to bytes is only in the bounded block = bytes task',
     'preset PEEK values (peek_values option) shadowing video addresses in the byte-wise path',
 ]
